@@ -18,5 +18,7 @@ out = {k: [list(v) for v in vs] for k, vs in sorted(rules._RECORDED.items())}
 _P = load_program()
 out["__functions__"] = sorted(_P.functions)
 out["__module_vars__"] = sorted(_P.module_vars)
+from prsa.model import function_tokens  # noqa: E402
+out["__function_tokens__"] = {q: function_tokens(f.node) for q, f in sorted(_P.functions.items())}
 json.dump(out, open(os.path.join(VERIF, "prsa", "baseline_vocab.json"), "w"), indent=0)
 print(len(rules._RECORDED), "comparisons recorded")
